@@ -16,9 +16,11 @@ WALENTRY = "searchlite_core::index::wal::WalEntry"
 def find_replay(P):
     """The function of index::wal that reads the log file and builds WalEntry values."""
     c = []
-    for p, f in P.fns.items():
-        if not p.startswith("searchlite_core::index::wal::") or f.kind == "closure" or is_test_or_bench(f):
+    for p, f0 in P.fns.items():
+        if not p.startswith("searchlite_core::index::wal::") or f0.kind == "closure" or is_test_or_bench(f0):
             continue
+        # analysed with its private helpers of the same file spliced in (record parsing / checksum / decoding helpers)
+        f = P.inlined(p)
         reads = any(t["callee"] == N.S_READ_TO_END for b, t in f.calls())
         builds = any(s["rv"]["k"] == "agg" and s["rv"].get("adt") == WALENTRY for b, i, s in f.stmts() if s["k"] == "assign")
         if reads and builds:
@@ -73,12 +75,35 @@ def r02a(ctx, P):
         t = rep.blocks[b]["term"]
         if t["k"] == "switch" and t.get("on_ty") == "u8" and len(t["values"]) >= 2:
             for v, tg in zip(t["values"], t["targets"]):
-                region = rep.dominated_region(tg)
+                region = rep.dominated_region(tg) | {tg}
                 vs = set()
-                for rb in region:
-                    for s in rep.blocks[rb]["stmts"]:
-                        if s["k"] == "assign" and s["rv"]["k"] == "agg" and s["rv"].get("adt") == WALENTRY:
-                            vs.add(s["rv"]["variant"])
+
+                def variants_in(g, blocks_, depth=0):
+                    out = set()
+                    for rb in blocks_:
+                        for s_ in g.blocks[rb]["stmts"]:
+                            if s_["k"] != "assign":
+                                continue
+                            rv_ = s_["rv"]
+                            if rv_["k"] == "agg" and rv_.get("adt") == WALENTRY:
+                                out.add(rv_["variant"])
+                            # a closure built here that constructs the entry (`.map(|x| WalEntry::V(x))`)
+                            if rv_["k"] == "agg" and rv_.get("closure") and depth < 2 and P.fn(rv_["closure"]) is not None:
+                                h = P.fn(rv_["closure"])
+                                out |= variants_in(h, sorted(h.reachable()), depth + 1)
+                        tt = g.blocks[rb]["term"]
+                        if tt["k"] == "call":
+                            # the variant constructor passed as a function (`.map(WalEntry::V)`)
+                            for a in tt["args"]:
+                                c = op_const(a)
+                                fnp = (c or {}).get("resolved") or (c or {}).get("fn") or ""
+                                if fnp.startswith(WALENTRY + "::"):
+                                    out.add(fnp.rsplit("::", 1)[1])
+                            cal_ = callee_of(tt)
+                            if cal_.startswith(WALENTRY + "::"):
+                                out.add(cal_.rsplit("::", 1)[1])
+                    return out
+                vs = variants_in(rep, sorted(region))
                 reader[v] = vs
             sw_block = b
     if not ctx.anchor(rid, sw_block is not None, "switch on the record-type byte in replay"):
@@ -103,9 +128,19 @@ def r02a(ctx, P):
            "replay decodes only type codes that a writer produces" if not extra else
            "replay decodes type codes %s that no writer produces" % sorted(extra), Site(rep, sw_block).loc())
     # CRC coverage (coarse, stated as such)
+    app0 = app
+    app = P.inlined(app.path)      # a shared checksum helper is spliced in
     upd_w = [(b, t) for b, t in app.calls() if callee_of(t) == "crc32fast::Hasher::update"]
     sl = Slice(app, through_all_calls=True)
     okw = False
+    if len(upd_w) == 2:
+        # two updates: [type byte] then the payload — the same shape the reader uses
+        upd_w.sort(key=lambda x: sum(1 for y in upd_w if app.dominates(Site(app, y[0]), Site(app, x[0]))))
+        s0, s1 = Slice(app).sources(upd_w[0][1]["args"][1]), Slice(app).sources(upd_w[1][1]["args"][1])
+        first_is_type = any(x[0] == "agg" and x[3].get("ak") == "array" for x in s0) and 2 in Slice(app).args(upd_w[0][1]["args"][1]) and \
+            3 not in Slice(app).args(upd_w[0][1]["args"][1])
+        second_is_payload = 3 in Slice(app).args(upd_w[1][1]["args"][1]) and 2 not in Slice(app).args(upd_w[1][1]["args"][1])
+        okw = first_is_type and second_is_payload
     if len(upd_w) == 1:
         src = sl.sources(upd_w[0][1]["args"][1])
         has_sub1 = any(s[0] == "binop" and s[1].startswith("Sub") for s in src) and \
@@ -114,8 +149,8 @@ def r02a(ctx, P):
         has_payload_len = has_payload_len and any(s[0] == "agg" and s[3].get("adt", "").endswith("RangeFrom") for s in src)
         okw = has_sub1 and has_payload_len
     ctx.ob(rid, "%s:Wal::append_entry:crc-input" % rid, okw,
-           "writer CRC covers buf[len - payload.len() - 1 ..] (type byte + payload) in one update" if okw else
-           "writer CRC input does not have the shape 'one update over type byte + payload'",
+           "writer CRC covers the type byte followed by the payload" if okw else
+           "writer CRC input is neither 'one update over type byte + payload' nor 'update([type]); update(payload)'",
            Site(app, upd_w[0][0]).loc() if upd_w else "%s:%s" % (app.file, app.line))
     upd_r = [(b, t) for b, t in rep.calls() if callee_of(t) == "crc32fast::Hasher::update"]
     slr = Slice(rep)
@@ -125,8 +160,24 @@ def r02a(ctx, P):
         upd_r.sort(key=lambda x: sum(1 for y in upd_r if rep.dominates(Site(rep, y[0]), Site(rep, x[0]))))
         first = slr.sources(upd_r[0][1]["args"][1])
         second = slr.sources(upd_r[1][1]["args"][1])
+        type_roots = _copies_of(rep, type_local)
+
+        def byte_reads(local):
+            """u8 locals read out of the log buffer (`data[i]`) that this local derives from (through copies, struct fields, arguments)"""
+            out = set()
+            for l_ in Slice(rep, through_all_calls=False).locals({"cp": {"l": local, "p": []}}) | {local}:
+                if rep.local_ty(l_) != "u8":
+                    continue
+                for d_ in rep.defs().get(l_, []):
+                    if d_["k"] == "assign" and d_["rv"]["k"] in ("use", "cast"):
+                        pl_ = op_place(d_["rv"]["a"])
+                        if pl_ and any(isinstance(e, dict) and "index" in e for e in pl_["p"]):
+                            out.add(l_)
+            return out
+        type_bytes = byte_reads(type_local)
         first_is_type = any(s[0] == "agg" and s[3].get("ak") == "array" and any(op_local(o) == type_local or
-                            type_local in _copies_of(rep, op_local(o)) for o in s[3]["ops"]) for s in first)
+                            (_copies_of(rep, op_local(o)) & type_roots) or (op_local(o) is not None and byte_reads(op_local(o)) & type_bytes)
+                            for o in s[3]["ops"]) for s in first)
         second_is_payload = any(s[0] == "call" and "::index" in callee_of(s[2]) for s in second) and not any(
             s[0] == "agg" and s[3].get("ak") == "array" for s in second)
         okr = first_is_type and second_is_payload
@@ -198,9 +249,7 @@ def r02b(ctx, P, rep):
         if not integrity:
             continue
         arms = outcome_arms(rep, Site(rep, b))
-        # Option: discriminant 0 = None (failure), 1 = Some; outcome_arms calls value-0 'ok' — swap for Option
-        is_opt = t["dst_ty"].startswith("core::option::Option<")
-        fail_blocks = arms["ok"] if is_opt else arms["err"]
+        fail_blocks = arms["err"]      # outcome_arms reads the polarity (Result / Option / ControlFlow) off the carrier's type
         n += 1
         back = [fb for fb in fail_blocks if hdr in rep.reachable_from(fb)]
         ctx.ob(rid, "%s:replay:%s:fail-exits-loop" % (rid, _tail(cal)), bool(fail_blocks) and not back,
@@ -258,7 +307,7 @@ def r02c(ctx, P):
     ctx.rule(rid, "ORDER: IndexWriter::new restores the queue from the log under the writer lock and handles every WalEntry "
                   "variant; the pending-op fold clears on a Commit marker; rollback clears the queue and truncates the log on "
                   "every success path; Drop syncs the log whenever the queue is non-empty")
-    new = P.fn(N.W + "::new")
+    new = P.inlined(N.W + "::new")
     if ctx.anchor(rid, new, "IndexWriter::new"):
         ctx.saw(new)
         acq = lock_acquisitions(new, field="writer_lock")
@@ -292,10 +341,20 @@ def r02c(ctx, P):
         if ctx.anchor(rid, covered is not None, "match on WalEntry in IndexWriter::new"):
             b, t = covered
             push_arms = 0
+            # an arm "queues an operation" if it pushes onto a Vec<PendingOp> itself, or builds a PendingOp value that flows
+            # into such a push behind the match (`let op = match entry {..}; ops.push(op)`)
+            sl_new = Slice(new, through_all_calls=True)
+            op_pushes = [(pb, pt) for pb, pt in new.calls() if callee_of(pt).endswith("Vec::<T, A>::push") and pt["args"] and
+                         "PendingOp" in new.local_ty(op_local(pt["args"][0]) or 0)]
             for v, tg in zip(t["values"], t["targets"]):
-                region = new.dominated_region(tg)
-                if any(new.blocks[rb]["term"]["k"] == "call" and callee_of(new.blocks[rb]["term"]).endswith("Vec::<T, A>::push")
-                       for rb in region):
+                region = new.dominated_region(tg) | {tg}
+                direct = any(pb in region for pb, pt in op_pushes)
+                built = False
+                for pb, pt in op_pushes:
+                    for x in sl_new.sources(pt["args"][1]):
+                        if x[0] == "agg" and (x[3].get("adt") or "").endswith("writer::PendingOp") and x[1] in region:
+                            built = True
+                if direct or built:
                     push_arms += 1
             okv = len(t["values"]) == nvar and push_arms == nvar - 1
             ctx.ob(rid, "%s:IndexWriter::new:variants-handled" % rid, okv,
@@ -533,7 +592,7 @@ def r02e(ctx, P, rid="R02.e"):
                    "the cut at %s is followed by sync_all on every path to a success return" % Site(f, cb).loc() if leak is None else
                    "%s shortens the file at %s and can return success at %s without sync_all: the shorter length is not durable"
                    % (f.short, Site(f, cb).loc(), leak.loc()), Site(f, cb).loc())
-    ctx.floor(rid, n, 2, "set_len calls (Wal::truncate, Wal::truncate_to)")
+    ctx.floor(rid, n, 1, "set_len calls in the log (Wal::truncate / Wal::truncate_to)")
 
 
 THOROUGH_FEATURES = ['r02e']
